@@ -204,6 +204,11 @@ func harnessIntrinsic(short string) intrinsicFn {
 			x.hooks[ptrKey(p)] = [2]Value{a[1], a[2]}
 			return nil
 		}
+	case "vGuard":
+		return func(x *Exec, _ *ssa.Function, a []Value) Value {
+			x.addGuards(unwrapAny(a[0]).(*Pointer), x.sliceElems(a[1].(*SliceV)))
+			return nil
+		}
 	case "vShared":
 		return func(x *Exec, _ *ssa.Function, a []Value) Value {
 			if x.shared == nil {
